@@ -138,9 +138,12 @@ func (x *dialogx) enumerate(scs []*dscenario, pairs bool, f func(c *dcase, r *dr
 					continue
 				}
 				// second deviation at any later point of this run
-				for _, rec2 := range r.trans {
+				for ri2, rec2 := range r.trans {
 					if rec2.Point <= rec.Point || rec2.Dev != "" {
 						continue
+					}
+					if ri2 == len(r.trans)-1 && rec2.Text == "exit" {
+						continue // as above: the answer to the final exit is never awaited
 					}
 					for _, kind2 := range deviationsAt(sc, rec2) {
 						c2 := &dcase{sc: sc, dev: map[int]string{rec.Point: kind, rec2.Point: kind2},
